@@ -568,6 +568,48 @@ pub fn gen_raw(r: &mut Rng, nonce: u64, steps: u32, step_ms: u64, stream: bool) 
     }
 }
 
+/// Paginated endpoint: first page (scan parameters) or a page token.
+pub fn gen_page(r: &mut Rng, nonce: u64, steps: u32, step_ms: u64) -> EchoReq {
+    let limit = if r.chance(1, 2) { Some(*r.pick(&[1u32, 7, 100, 10_000, 10_001, u32::MAX])) } else { None };
+    // the server clamps to its maximum page size (10000) and defaults to 100
+    let eff = limit.map(|l| l.min(10_000)).unwrap_or(100);
+    let mut query = Vec::new();
+    let canon;
+    if r.chance(1, 2) {
+        let tag = if r.chance(1, 2) { Some(gen_string(r, 12)) } else { None };
+        if let Some(t) = &tag {
+            query.push(("tag".to_string(), enc_form(r, t)));
+        }
+        canon = json!({"first": tag, "limit": eff});
+    } else {
+        let n = *r.pick(&[0u32, 1, 41, u32::MAX]);
+        let s = gen_string(r, 20);
+        let tok = serde_json::to_vec(&json!({"v": "v1", "page_start": {"n": n, "s": s}})).unwrap();
+        let b64 = crate::sha1::base64_url(&tok);
+        // '=' padding may be sent raw or percent-encoded
+        let b64 = if r.chance(1, 2) { b64.replace('=', "%3D") } else { b64 };
+        query.push(("page_token".to_string(), b64));
+        canon = json!({"next": {"n": n, "s": s}, "limit": eff});
+    }
+    if let Some(l) = limit {
+        query.push(("limit".to_string(), l.to_string()));
+    }
+    r.shuffle(&mut query);
+    EchoReq {
+        op: "echo_page",
+        method: "GET",
+        path_segs: vec!["page".into()],
+        query,
+        headers: base_headers(r, nonce, steps, step_ms),
+        ctype: None,
+        ctype_name: "content-type",
+        body: None,
+        framing: BodyFraming::None,
+        canon,
+        boundary_style: 0,
+    }
+}
+
 /// RawRequest extractor: the handler gets hyper's request as is.
 pub fn gen_rawreq(r: &mut Rng, nonce: u64, steps: u32, step_ms: u64) -> EchoReq {
     let mut e = gen_raw(r, nonce, steps, step_ms, false);
@@ -700,7 +742,8 @@ pub fn gen_thing(r: &mut Rng, nonce: u64, steps: u32, step_ms: u64) -> (EchoReq,
 }
 
 pub fn gen_any(r: &mut Rng, nonce: u64, steps: u32, step_ms: u64) -> EchoReq {
-    match r.below(11) {
+    match r.below(12) {
+        11 => gen_page(r, nonce, steps, step_ms),
         10 => gen_rawreq(r, nonce, steps, step_ms),
         0 | 1 | 2 => gen_typed(r, nonce, steps, step_ms),
         3 | 4 => gen_form(r, nonce, steps, step_ms),
